@@ -496,11 +496,41 @@ func (c *Ctx) progressRules(r *Report) {
 		r.Fail("PROGRESS", c.fname(pa), "argument loop", "", "loop not found")
 	}
 	ok := false
-	for _, l := range loopsOf(aa) {
+	for _, l := range c.loopsDeep(aa) {
 		for _, in := range l.Header.Instrs {
 			p, isPhi := in.(*ssa.Phi)
 			if !isPhi {
 				break
+			}
+			if relType(c, p.Type()) == "int" {
+				// counter form: every back edge carries counter+k (k ≥ 1) and the loop is left when counter ≥ len(args)
+				inc := true
+				for i, e := range p.Edges {
+					if !l.Blocks[l.Header.Preds[i]] {
+						continue
+					}
+					bo, isB := e.(*ssa.BinOp)
+					if !isB || bo.Op != token.ADD || bo.X != ssa.Value(p) {
+						inc = false
+						continue
+					}
+					if k, isC := constInt(bo.Y); !isC || k < 1 {
+						inc = false
+					}
+				}
+				bounded := false
+				for b := range l.Blocks {
+					if iff, isIf := b.Instrs[len(b.Instrs)-1].(*ssa.If); isIf {
+						lt := c.cond(iff.Cond)
+						if lt.Term == "lt("+c.term(p)+", len(P1))" && !l.Blocks[b.Succs[1]] {
+							bounded = true
+						}
+					}
+				}
+				if inc && bounded {
+					ok = true
+				}
+				continue
 			}
 			if !isSliceT(p.Type()) || typeName(p.Type()) != "[]string" {
 				continue
@@ -524,7 +554,7 @@ func (c *Ctx) progressRules(r *Report) {
 			}
 		}
 	}
-	r.Check(ok, "PROGRESS", c.fname(aa), "positional fill loop drops a token per iteration", c.pos(aa.Pos()), "every back edge carries args[1:]", "a back edge of the fill loop does not shrink args")
+	r.Check(ok, "PROGRESS", c.fname(aa), "positional fill loop drops a token per iteration", c.pos(aa.Pos()), "every back edge carries args[1:] (or advances the token index, bounded by len(args))", "a back edge of the fill loop does not shrink args")
 }
 
 // nilAt: the value flowing along the edge pred→succ is known nil: pred (or the
